@@ -226,15 +226,30 @@ def reconstruct(t, obs, wait=False, nthreads=1):
                 begun.add(op)
                 node = ["S", op, None, []]
             else:   # completion bracket
+                # who completes?  (a) a harness leaf that announced its completion at this depth, (b) the parent of
+                # the operation whose completion bracket is right below (the completion propagates), (c) the inline
+                # sender whose start bracket is right below.  When the bracket is the innermost one its frame chain
+                # (the copy, then the ancestors of the receiver's operation) discriminates.
+                cands = []
                 pd = pending.get(th)
                 if pd is not None and pd[1] == j:
-                    op = pd[0]; pending.pop(th)
-                elif below is not None and below[0] == "C" and t.par.get(below[1]) is not None and t.kind[t.par[below[1]]] != "wait":
-                    op = t.par[below[1]]
-                elif below is not None and below[0] == "S" and t.kind[below[1]] in ("inl", "J"):
-                    op = below[1]
-                else:
-                    raise Mismatch("unresolved completion bracket at %s %s (below: %s)" % (o.what, o.id, below and below[:2]))
+                    cands.append(pd[0])
+                if below is not None and below[0] == "C" and t.par.get(below[1]) is not None and t.kind[t.par[below[1]]] != "wait":
+                    cands.append(t.par[below[1]])
+                if below is not None and below[0] == "S" and t.kind[below[1]] in ("inl", "J"):
+                    cands.append(below[1])
+                def fits(n):
+                    if j != len(keys) - 1 or not ch:
+                        return True
+                    p = t.par.get(n)
+                    return len(ch) == 1 + (len(t.anc(t.par.get(p))) if p is not None else 0)
+                good = [c for c in cands if fits(c)]
+                if not good:
+                    raise Mismatch("unresolved completion bracket at %s %s (below: %s, candidates %s)" % (
+                        o.what, o.id, below and below[:2], cands))
+                op = good[0]
+                if pd is not None and op == pd[0]:
+                    pending.pop(th)
                 node = ["C", op, None, []]
             body_of(th).append(node)
             opens[th].append((keys[j], node))
@@ -251,35 +266,32 @@ def reconstruct(t, obs, wait=False, nthreads=1):
 
 
 def canon_impl(o, wait=False):
-    """canonical snapshot: per root (innermost first) kind:chain with frames renamed by first occurrence;
-    roots whose top frame is not (any more) a frame activated on them print '?'"""
-    names = {}
+    """canonical snapshot: the kinds of the roots, innermost first, and the innermost root's frame chain with
+    frames renamed by position (its ancestors are alive, hence distinct)"""
     out = []
     n = len(o.stack)
     for idx, (kind, rt, ch, flagged) in enumerate(o.stack):
-        if kind == "E":
-            out.append("E"); continue
-        if wait and o.thread == 0 and idx == n - 1:
+        if wait and o.thread == 0 and idx == n - 1 and kind == "C":
             kind = "S"
-        if flagged or ch is None:
-            out.append(kind + ":?"); continue
-        out.append(kind + ":" + ">".join(str(names.setdefault(x, len(names))) for x in ch))
+        if idx == 0 and ch is not None:
+            names = {}
+            out.append(kind + ":" + ">".join(str(names.setdefault(x, len(names))) for x in ch))
+        else:
+            out.append(kind)
     return " ".join(out) or "none"
 
 
 def canon_model(snap, impl_o):
-    names = {}
     out = []
     ws = [] if snap == "none" else snap.split()
     for idx, w in enumerate(ws):
         kind, _, ch = w.partition(":")
-        if kind == "E":
-            out.append("E"); continue
-        flagged_impl = idx < len(impl_o.stack) and (impl_o.stack[idx][3] or impl_o.stack[idx][2] is None)
-        if flagged_impl:
-            out.append(kind + ":?"); continue
         ch = ch.split("!")[0]
-        out.append(kind + ":" + ">".join(str(names.setdefault(x, len(names))) for x in ch.split(">")))
+        if idx == 0 and kind != "E":
+            names = {}
+            out.append(kind + ":" + ">".join(str(names.setdefault(x, len(names))) for x in ch.split(">")))
+        else:
+            out.append(kind)
     return " ".join(out) or "none"
 
 
